@@ -209,10 +209,19 @@ class _RealLog:
 
 
 class SpyEdit(_RealLog, urwid.Edit):
-    def __init__(self, sid, glyph, log, caption_len, text_len, pos, wrap, caption_blank=False):
+    def __init__(self, sid, glyph, log, caption_len, text_len, pos, wrap, caption_blank=False, text=None, mask=None, as_bytes=False):
+        """text=None: the edit text is glyph * text_len.  Otherwise `text` is the REAL text (combining marks, wide characters,
+        newlines ...) and, if `mask` is set, what is drawn is mask * len(text) -- the mask is the glyph, so the leaf stays
+        readable on the canvas while positions are walked through the real characters"""
         self._spy_setup(sid, glyph, log)
-        super().__init__(glyph * caption_len + (" " if caption_blank else ""), glyph * text_len, wrap=wrap)
-        self.set_edit_pos(pos)
+        caption = glyph * caption_len + (" " if caption_blank else "")
+        if text is None:
+            text = glyph * text_len
+        if as_bytes:
+            caption, text = caption.encode("utf-8"), text.encode("utf-8")
+            mask = mask.encode("utf-8") if mask is not None else None
+        super().__init__(caption, text, wrap=wrap, mask=mask)
+        self.set_edit_pos(min(pos, len(text)))
 
     def render(self, size, focus=False):
         self.last_size = tuple(size)
@@ -221,7 +230,9 @@ class SpyEdit(_RealLog, urwid.Edit):
 
     def mouse_event(self, size, event, button, x, y, focus):
         self.log.append(("mouse", self.sid, tuple(size), event, button, x, y, bool(focus)))
-        return super().mouse_event(size, event, button, x, y, focus)
+        r = super().mouse_event(size, event, button, x, y, focus)
+        self.log.append(("mouse_ret", self.sid, r))
+        return r
 
     def move_cursor_to_coords(self, size, x, y):
         r = super().move_cursor_to_coords(size, x, y)
